@@ -21,6 +21,9 @@ Inductive token :=
 | TInvalid                   (* Token::Word('<INVALID>') *)
 | TNonAscii.                 (* byte >= 128 outside a string literal: not modelled *)
 
+(** linear-time reverse ([List.rev] is quadratic); [frev l = rev l] by [List.rev_alt] *)
+Definition frev {A} (l : list A) : list A := rev_append l [].
+
 Fixpoint span (p : N -> bool) (s : bytes) : bytes * bytes :=
   match s with
   | c :: r => if p c then let '(a, b) := span p r in (c :: a, b) else ([], s)
@@ -48,12 +51,12 @@ Definition unescape (e : N) : N :=
     runs to the end of the input. *)
 Fixpoint scan_string (s : bytes) (acc : bytes) : bytes * bytes :=
   match s with
-  | [] => (rev acc, [])
+  | [] => (frev acc, [])
   | c :: r =>
-      if c =? 34 then (rev acc, r)
+      if c =? 34 then (frev acc, r)
       else if c =? 92 then
         match r with
-        | [] => (rev acc, [])
+        | [] => (frev acc, [])
         | e :: r' => scan_string r' (unescape e :: acc)
         end
       else scan_string r (c :: acc)
